@@ -63,6 +63,14 @@ def check(ctx, replay=None):
     def viol(msg, what):
         ctx.violation(msg, {"what": what, "how": "./check C13 quick (the harness cmd/detrace re-executes all histories and the concurrent run)"})
 
+    # 1b. every policy of the compiler scopes (incl. empty groups in every position, merged conditional entries): compile, compile again,
+    #     compile a slice-sharing copy, compare snapshots of the caller's policy (polreplay kind "determinism")
+    import polfam
+    plan = [dict(scope="groups2", mc=None, kw=dict(NSys=3), stride=1 if th else 2, concs=2, expand=1),
+            dict(scope="merge", mc=None, stride=1 if th else 4, concs=2, expand=1),
+            dict(scope="many", mc=None, stride=2 if th else 12, concs=2, expand=1)]
+    polfam.run_family(ctx, plan, mine={"determinism"}, decision_owner=None)
+
     # 2. sequential replay of the TLC histories
     rc, rep, races, err = run_json(ctx, [plain, "-mode", "seq"], input=json.dumps(hists))
     if rep is None:
